@@ -3,8 +3,9 @@
 One case = one (grid, boundary-condition assignment).  The worker
 
 1. extracts the discrete operator with BCs, ``L_bc(u) = A u + b``, by applying the real Laplacian
-   (``grid.make_operator("laplace", bc, backend="numba")``) to the zero field and to every unit basis
-   vector - independent of the sparse matrices used by the solver;
+   (``ScalarField.laplace(bc)``: ghost cells from the BCs, then the stencil; not the cached
+   ``make_operator``) to the zero field and to every unit basis vector - independent of the sparse
+   matrices used by the solver;
 2. compares the sparse-matrix route ``_get_laplace_matrix(bcs)`` of the scipy backend entry-wise with
    ``(A, b)`` (this localises defects);
 3. classifies the problem as non-singular (``cond(A) < 1e10``) or singular and enumerates the
@@ -283,8 +284,8 @@ def _unravel(k, shape):
     return tuple(reversed(idx))
 
 
-def _feature_of_entry(geo, bc, row, col):
-    """the boundary condition(s) that can be responsible for entry (row, col) of the operator"""
+def _sides_of_entry(geo, row, col):
+    """the sides whose boundary condition enters entry (row, col) of the operator (col=None: constant)"""
     shape = geo["shape"]
     i = _unravel(row, shape)
     axes = list(range(len(shape)))
@@ -299,9 +300,21 @@ def _feature_of_entry(geo, bc, row, col):
             sides.append((a, False))
         if i[a] == shape[a] - 1:
             sides.append((a, True))
-    if not sides:
+    return sides
+
+
+def _feature_of_entries(geo, bc, entries):
+    """localise a set of differing entries [(row, col)]: the entry that involves the fewest sides names the
+    family - one side: '<kind> at <side> boundary'; several (corner cell): only the sides are named"""
+    best = min((_sides_of_entry(geo, r, c) for r, c in entries), key=len)
+    if not best:
         return "interior row"
-    return "; ".join(f"{_side_kind(geo, bc, a, up)} at {_side_name(geo, a, up)} boundary" for a, up in sides)
+    if len(best) == 1:
+        a, up = best[0]
+        if geo["axes"][a] == "r" and not up and geo["bounds"][a][0] == 0:
+            return "row at the axis r=0 (no hole: the inner condition does not enter)"
+        return f"{_side_kind(geo, bc, a, up)} at {_side_name(geo, a, up)} boundary"
+    return "row touching the " + ",".join(_side_name(geo, a, up) for a, up in best) + " boundaries"
 
 
 def _feature_all(geo, bc):
@@ -395,21 +408,22 @@ def solve_case(case):
     mism_feature = None
     dM = np.abs(M - A)
     if not np.all(dM <= mtol):
-        r, c = (int(t) for t in np.argwhere(dM > mtol)[0])
-        mism_feature = _feature_of_entry(geo, bc, r, c)
+        bad = [(int(r), int(c)) for r, c in np.argwhere(dM > mtol)]
+        r, c = bad[0]
+        mism_feature = _feature_of_entries(geo, bc, bad)
         report(mism_feature, "sparse matrix differs from the operator",
                f"_get_laplace_matrix: entry ({r},{c}) is {M[r, c]!r}, the operator has {A[r, c]!r} "
                f"({int((dM > mtol).sum())} entries differ)",
                label="none", detail={"row": r, "col": c, "matrix": M.tolist(), "operator": A.tolist()})
     dv = np.abs(vec - b)
     if not np.all(dv <= mtol):
-        r = int(np.argwhere(dv > mtol)[0][0])
-        f = _feature_of_entry(geo, bc, r, None)
+        bad = [(int(r[0]), None) for r in np.argwhere(dv > mtol)]
+        r = bad[0][0]
+        f = _feature_of_entries(geo, bc, bad)
         mism_feature = mism_feature or f
         report(f, "sparse constant vector differs from the operator",
                f"_get_laplace_matrix: constant of row {r} is {vec[r]!r}, the operator has {b[r]!r}",
                label="none", detail={"row": r, "vector": vec.tolist(), "operator": b.tolist()})
-    feature = mism_feature or _feature_all(geo, bc)
 
     # -- 3. classification and right-hand sides ---------------------------------------------------
     # singular values are judged against the natural scale 1/dx^2 as well: with curvature conditions on both
@@ -420,6 +434,9 @@ def solve_case(case):
     singular = not cond < COND_SINGULAR
     rank = int((S > 1e-10 * smax).sum())
     null = U[:, rank:]  # left null space: rhs - b is compatible iff orthogonal to it
+    # family of a solver-level violation: the boundary whose matrix entries are wrong if there is one, else (the
+    # matrices agree with the operator, so the cause lies in the solve itself) only the class of the problem
+    feature = mism_feature or ("singular problem" if singular else "non-singular problem")
 
     def classify(r):
         """'ok' solvable, 'bad' provably rejected by the solver's own test, None borderline"""
@@ -602,6 +619,11 @@ def main(run):
             cond_s = min(cond_s, info["cond"])
         else:
             cond_ns = max(cond_ns, info["cond"])
+    counts: dict = {}
+    for case, r in res:
+        for v in r.get("v", []):
+            counts[v["sig"]] = counts.get(v["sig"], 0) + 1
+    run.notes["violating_problems_by_signature"] = dict(sorted(counts.items()))  # same seed => same numbers
     run.notes["problems"] = {"total": len(res), "singular": nsing, "non_singular": len(res) - nsing}
     run.notes["right_hand_sides"] = {
         "non-singular: field returned and residual within tolerance": tot["solved"],
@@ -615,6 +637,14 @@ def main(run):
                                       "threshold": COND_SINGULAR}
     run.notes["largest_accepted_residual_over_tolerance"] = worst
     run.notes["bc_values"] = vals
+    run.notes["grid_kinds_explored"] = sorted(fams)
+    run.notes["observations"] = [
+        "not violations (listed under refusals): compatible right-hand sides of singular problems are sometimes refused - "
+        "curvature conditions on both sides of an axis give zero rows and SuperLU raises RuntimeError ('failed to factorize "
+        "matrix') before the lsmr fallback is reached; lsmr sometimes misses the 1e-5 acceptance level",
+        "the docstring of solve_poisson_equation states laplace(u) = -f, the implementation (and property C18) solve "
+        "laplace(u) = f",
+    ]
     # the classification must be clear-cut: nothing may sit between 'well conditioned' and 'exactly singular'
     if cond_ns > 1e7 or (nsing and cond_s < 1e13):
         run.exhaustive = False
